@@ -489,6 +489,14 @@ class Actor:
             if w.lin and not w.used:
                 self.discharge(w)
         wires = [w.wire for w in outs]
+        if self.kind == "dfg" and wires and self.tmodel is None and self.required is None \
+                and sim.features.get("provisional_outputs", True) and ch.coin(1, 6, "outputs-set-provisionally-first"):
+            # a second call of a method that is usually called once: the graph is first closed with no outputs at all
+            # (complete as it stands), somebody may look at the HUGR, then the outputs are set for good
+            self.call("set_outputs() provisionally", self.b.set_outputs)
+            sim.ctx.probe("outputs_set_twice")
+            if ch.coin(1, 2, "observe-between"):
+                sim.observe()
         if self.kind == "block" and ch.coin(1, 2, "set_block_outputs") and wires:
             self.call("set_block_outputs", self.b.set_block_outputs, *wires)
         elif self.kind == "loop" and ch.coin(1, 2, "set_loop_outputs") and wires:
